@@ -8,7 +8,7 @@ import tempfile
 from hypothesis import strategies as st
 
 from props import c04
-from vlib import gen_tables, model_validio
+from vlib import cidlib, gen_tables, model_validio
 from vlib.runner import norm_message
 
 import cutplace
@@ -86,7 +86,9 @@ def cases(draw):
         # the writer opens the file with the declared encoding: a row it cannot encode is a row it cannot write
         fmt["encoding"] = draw(st.sampled_from(["utf-8", "utf-8", "ascii", "cp1252", "latin-1", "utf-16", "cp850"]))
     return {"spec": spec, "rows": rows, "target": target, "rows_as": draw(st.sampled_from(["list", "list", "tuple"])),
-            "calls": draw(st.sampled_from(["rows", "rows", "bulk"]))}
+            "calls": draw(st.sampled_from(["rows", "rows", "bulk"])),
+            "cid_via": draw(st.sampled_from(["object", "path"])),
+            "visitor": draw(st.sampled_from([None, 1, 1, 2, 2, 3, 4]))}
 
 
 def _render(spec, accepted):
@@ -134,11 +136,20 @@ def check_case(sub, case):
         target = _FileTarget(fmt.get("encoding") or "utf-8")
     else:
         target = io.StringIO(newline="")
+    cid_folder = None
+    if case.get("cid_via") == "path":
+        # the writer is given the path of the CID instead of a Cid object
+        cid_folder = tempfile.mkdtemp(prefix="c14-cid-")
+        cid = os.path.join(cid_folder, "cid.csv")
+        with open(cid, "w", encoding="utf-8", newline="") as f:
+            csv.writer(f).writerows(cidlib.cid_rows(fmt, spec["fields"], gen_tables.check_rows(spec)))
     try:
         return _check_with_target(sub, case, cid, target)
     finally:
         if isinstance(target, _FileTarget):
             target.remove()
+        if cid_folder:
+            shutil.rmtree(cid_folder, ignore_errors=True)
 
 
 class _FileTarget(object):
@@ -217,7 +228,18 @@ def _check_with_target(sub, case, cid, target):
             return False
         return content_ok(handed_over)
 
-    for row in rows:
+    for row_number, row in enumerate(rows):
+        if isinstance(cid, str) and row_number == case.get("visitor"):
+            # somebody else starts to read other data under the same CID file while this writer is at work: that is
+            # a validation of its own, with a Cid of its own
+            if not flush():
+                return
+            try:
+                so_far = _render(spec, accepted) if fixed else gen_tables.delimited_text(accepted, fmt=fmt)
+                for _ in cutplace.rows(cid, io.StringIO(so_far, newline=""), on_error="continue"):
+                    pass
+            except errors.DataError:
+                pass
         written = len(accepted)
         before = target.getvalue()
         if written < header:
